@@ -140,6 +140,17 @@ pub fn generate(profile: &str, seed: u64, n: usize, size: usize) -> Vec<History>
                 out.push(h);
             }
         }
+        "thin" => {
+            for _ in 0..n {
+                let h = crate::big::gen_thin(&mut rng, Coll::SetTree);
+                out.push(as_list(&h, Coll::SetList));
+                let mut m = h.clone();
+                m.coll = Coll::MapTree;
+                m.ops.retain(|o| !matches!(o, Op::M(MOp::After(_)) | Op::M(MOp::Before(_)) | Op::M(MOp::WalkF(_)) | Op::M(MOp::WalkB(_))));
+                out.push(m);
+                out.push(h);
+            }
+        }
         "bigseg" => {
             for i in 0..n {
                 out.push(crate::big::gen_big_seg(&mut rng, size, seed + i as u64));
